@@ -142,6 +142,16 @@ def check(o: dict, model: Model, res: Result, label: str) -> None:
         if not done:
             continue
         d = done[-1]
+        rid = j.get("result_id", "res-" + j["id"])
+        sharers = [x for x in sc["jobs"] if x.get("result_id", "res-" + x["id"]) == rid and x["id"] != j["id"]]
+        if sharers:
+            # several jobs write the same result id: "the latest execution" is the one whose store came last before the read
+            cands = [dd for x in [j] + sharers for dd in by_id.get(x["id"], []) if dd["call_t"] is not None and dd["call_t"] <= r["t"]
+                     and dd.get("store_events")]
+            if cands:
+                pos = {id(e): i for i, e in enumerate(run.events)}
+                d = max(cands, key=lambda dd: max(pos.get(id(e), -1) for e in dd["store_events"]))
+                j = jobs[d["id"]]
         st = j["plan"][min(d["n"], len(j["plan"]) - 1)]
         faulty = any(e.get("fails") for e in d.get("store_events", []))
         cls = (st["k"], min(d["n"], 3), faulty, j["store_result"])
